@@ -28,7 +28,7 @@ rm -rf tests/seed_demo.rs
 FIRED=""; SILENT=""
 mkdir -p /verif/.work/selftest_out/evidence; cp /verif/known_findings.txt /verif/.work/selftest_out/known_findings.txt
 export VERIF_DIR=/verif/.work/selftest_out/$NAME; mkdir -p $VERIF_DIR/evidence; cp /verif/known_findings.txt $VERIF_DIR/known_findings.txt
-for c in C01 C02 C03 C04 C05 C06 C07 C08 C09 C10 C11 C12 C13 C14 C15 C16 C17 C18 C19 C20; do
+for c in ${CHECKS:-C01 C02 C03 C04 C05 C06 C07 C08 C09 C10 C11 C12 C13 C14 C15 C16 C17 C18 C19 C20}; do
   r=$(AIS_REPO=$TMP timeout 900 /verif/bin/check $c ${TIER:-quick} 2>&1)
   if echo "$r" | grep -q "^VIOLATION property=$c"; then k=$(echo "$r" | grep -m1 "key=" | sed 's/^ *key=//' | cut -c1-160); FIRED="$FIRED $c"; echo "  $c FIRED $k"; else SILENT="$SILENT $c"; fi
 done
